@@ -104,6 +104,10 @@ static std::string run_dense(const Sx& c) {
              ((MatrixRectangular*) M)->unsample(A, vint(c[A0 + 1]), vint(c[A0 + 2]), c[A0 + 3].b(), c[A0 + 4].b()); return outM(*M); }
   case 27: { AMatrixDense* X = mkDense(0, c[A0]); M->copyReduce(X, vint(c[A0 + 1]), vint(c[A0 + 2])); return outM(*M); }
   case 28: return outI(M->isSymmetric() ? 1 : 0);
+  case 30: return outD(((AMatrixSquare*) M)->trace());
+  case 31: return outD(((AMatrixSquare*) M)->normVec(c[A0].vd()));
+  case 32: ((AMatrixSquare*) M)->prodByDiagInPlace((int) c[A0].i(), c[A0 + 1].vd()); return outM(*M);
+  case 33: ((AMatrixSquare*) M)->prodDiagByVector(c[A0].vd()); return outM(*M);
   }
   return "(-997 1)";
 }
@@ -167,6 +171,7 @@ static std::string run_vec(const Sx& c) {
   case 16: { VectorInt ranks = vint(c[3]); VectorDouble v = c[4].vd(TEST);
              VH::arrangeInPlace(c[2].b() ? 1 : 0, ranks, v, c[5].b(), (int) c[6].i());
              return "(0 " + sx_vi(ranks) + " " + sx_vd(v) + ")"; }
+  case 19: { VectorDouble src = c[2].vd(), dest = c[3].vd(); VH::addInPlace(constvect(src.data(), src.size()), vect(dest.data(), dest.size())); return outV(dest); }
   case 17: { VectorDouble v = c[2].vd(); return outV(VH::unique(v)); }
   case 18: { VectorDouble v = c[2].vd(); return outV(VH::sort(v, c[3].b())); }
   }
@@ -195,6 +200,8 @@ static std::string run_solve(const Sx& c) {
     ch.matProductInPlace((int) c[3].i(), *(MatrixRectangular*) R, X);
     return outM(X);
   }
+  if (op == 12) { MatrixSquareSymmetric* S = MatrixSquareSymmetric::createFromTLTU((int) c[3].i(), c[4].vd()); return outM(*S); }
+  if (op == 13) { MatrixSquareSymmetric* S = MatrixSquareSymmetric::createFromTriangle((int) c[3].i(), (int) c[4].i(), c[5].vd()); return outM(*S); }
   if (op == 10 || op == 11) {
     AMatrixDense* T = mkDense(1, c[3]); int n = T->getNRows();
     MatrixSquareGeneral self(n);
@@ -281,6 +288,28 @@ static std::string run_session(const Sx& c) {
         case 11: if (gen) R->AMatrix::prodScalar(c1); else R->prodScalar(c1); break;
         case 12: if (gen) R->AMatrix::multiplyRow(v); else R->multiplyRow(v); break;
         case 13: if (gen) R->AMatrix::multiplyColumn(v); else R->multiplyColumn(v); break;
+        default: emit("(-997 1)|"); continue;
+        }
+        r = outM(*R);
+      } catch (...) { r = "(1)"; }
+      emit(r + "|");
+    }
+  } else if (fam == 3) {
+    // mixed pool: dense classes and sparse matrices, every call through the AMatrix interface
+    std::vector<AMatrix*> P;
+    for (auto& e : c[3].l) { int k = (int) e[0].i(); if (k <= 2) P.push_back(mkDense(k, e[1])); else P.push_back(mkSparse(k == 4 ? 1 : 0, e[1])); }
+    for (auto& st : c[4].l) {
+      long long op = st[0].i(); AMatrix* R = P[(size_t) st[2].i()];
+      AMatrix* X = P[(size_t) st[3].i()]; AMatrix* Y = P[(size_t) st[4].i()];
+      bool tx = st[5].b(), ty = st[6].b(); double c1 = st[8].d(), c2 = st[9].d();
+      std::string r;
+      try {
+        switch (op) {
+        case 22: R->prodMatMatInPlace(X, Y, tx, ty); break;
+        case 220: R->prodMatInPlace(Y, ty); break;
+        case 23: R->prodNormMatMatInPlace(X, Y, tx); break;
+        case 16: R->addMatInPlace(*X, c1, c2); break;
+        case 17: R->linearCombination(c1, X, c2, Y); break;
         default: emit("(-997 1)|"); continue;
         }
         r = outM(*R);
